@@ -1,4 +1,5 @@
 import RsModel.Model.Tree
+import RsModel.Props.C01
 /-!
 # C13 — composition laws: nesting, neutral elements and wrappers change nothing
 -/
@@ -61,5 +62,19 @@ theorem c13_cached_views (id : Nat) (s : Src) :
 theorem c13_empty_children_text (s : Src) :
     (mkConcat [.other (.raw false [] []), .other s, .other (mkConcat [])]).src = s.src := by
   simp [mkConcat, Src.src, SrcList.ofList, SrcList.srcs]
+
+/-- any two trees with the same `source()` stream the same text, whatever their grouping, wrappers and cache
+contents (both are well formed): the text half of every law of this property -/
+theorem c13_stream_text_of_src (a b : Src) (c : Bool) (σ σ' : Store) (ha : a.WF) (hb : b.WF) (h : a.src = b.src) :
+    evsText (a.stream ⟨c, false⟩ σ).1.evs = evsText (b.stream ⟨c, false⟩ σ').1.evs := by
+  rw [(c01 a c σ ha).1, (c01 b c σ' hb).1, h]
+
+/-- boxed nesting streams the text of the flat concatenation -/
+theorem c13_boxed_nesting_stream_text (as bs : List Src) (c : Bool) (σ σ' : Store)
+    (h1 : (mkConcat [.other (mkConcat (as.map .other)), .other (mkConcat (bs.map .other))]).WF)
+    (h2 : (mkConcat ((as ++ bs).map .other)).WF) :
+    evsText ((mkConcat [.other (mkConcat (as.map .other)), .other (mkConcat (bs.map .other))]).stream ⟨c, false⟩ σ).1.evs
+      = evsText ((mkConcat ((as ++ bs).map .other)).stream ⟨c, false⟩ σ').1.evs :=
+  c13_stream_text_of_src _ _ c σ σ' h1 h2 (c13_boxed_nesting_text as bs)
 
 end Rs
